@@ -27,6 +27,9 @@ CLAIMED = {
  "C07": ("other", "composition-shape rule on the six result transcoders + nat-argument/result-type agreement + C01/C03 rules on the result wrappers",
          "Decides that every ReadResultX+WriteResultY transcoder is exactly read-into-ret (error checked), then write of the same ret from the input buffer to the output buffer with no other effect; that TL1 and JSON result codecs pass identical nat arguments and one result type; that the TL1 result pair is dual and the TL2 result wrapper triple agrees slot by slot. Value equality with decode-then-encode is this composition identity, not an executed comparison.",
          "trusts go/types; corpus-bounded", "DESIGN.md §3 C07"),
+ "C08": ("other", "dominance (bound-before-use) dataflow over generated readers: allocations, slicings, loops, panics",
+         "Decides for every generated reader function (TL1, TL2, JSON, result readers, Builtin collection readers) that every input-sized allocation is dominated by a bound against the remaining input (CheckLengthSanity with a positive minimum size in TL1 — for corpora generated with the option — or len(r) < n → error in TL2), every non-constant slicing is dominated by the matching len/cap guard with facts killed on reassignment, no panic is called, and every loop is a range loop, a counted loop, an incrementing index loop or a lexer loop whose iterations consume a token or leave. One genuine defect class is recorded as a known finding (JSON tuple readers allocate nat_n elements up front). basictl's own readers are C33.",
+         "corpus-bounded; easyjson trusted; heap use as a number is not decided", "DESIGN.md §3 C08"),
  "C09": ("other", "must-define / no-stale-read dataflow over generated readers and Reset",
          "Decides on every path to a success return of every generated TL1/TL2 reader and Reset that each receiver field (hidden TL2 masks, union index included) is assigned, reset or handed to a sibling reader/Reset; that no condition reads a field before this call defined it; that collection readers re-slice/reallocate/clear the destination first; that temporaries stored into collections are fresh per iteration. JSON readers are covered by C06's omitted-field rule; error values are not compared.",
          "inductive summary: a sibling reader/Reset defines its operand; corpus-bounded", "DESIGN.md §3 C09"),
